@@ -37,6 +37,9 @@ type c09Args struct {
 	Kind   string `json:"kind"`
 	Param  string `json:"param"`
 	Class  string `json:"class"`
+	World  string `json:"world"`
+	Mode   string `json:"mode"`
+	Span   string `json:"span"`
 }
 
 // hostile heights per class (world base 280): see specs/ChainHistory.tla HeightOf
@@ -51,6 +54,12 @@ var stageScript = map[string][][]string{
 	"signed":  {{"execjob", "deployuser", "send"}, {"sign"}},
 	"elected": {{"execjob", "deployuser", "send"}, {"sign"}, {"estimate", "batchest"}, {"sign", "confirm"}},
 	"relayed": {{"execjob", "deployuser", "send"}, {"sign"}, {"estimate", "batchest"}, {"sign", "confirm"}, {"relayerr"}},
+	// a delivery report that nobody can attest: the relayer published an (unverifiable) transaction hash / an error
+	"reportedpad": {{"execjob", "deployuser", "send"}, {"sign"}, {"estimate", "batchest"}, {"sign", "confirm"}, {"relayok"}},
+	// contentious evidence: 2 validators against 1, the fourth silent
+	"split": {{"execjob", "deployuser", "send"}, {"sign"}, {"estimate", "batchest"}, {"sign", "confirm"}, {"relayerr"}, {"attestsplit3"}},
+	// the only evidence comes from a validator that is in no snapshot
+	"newval": {{"newval", "execjob", "deployuser", "send"}, {"sign", "newvalalive"}, {"estimate", "batchest"}, {"sign", "confirm"}, {"relayerr"}, {"attestnew"}},
 }
 
 // duty: what the pigeons and users do in the block after height h
@@ -78,13 +87,60 @@ func (c *chain) quiet() bool {
 	return len(bs) == 0
 }
 
-// dutyTxs: the transactions of the duty block after the current height
-func (c *chain) dutyTxs() [][]byte {
+// dutyTxs: the transactions of the duty block after the current height.
+//   duty      every pigeon does everything;  noattest  the pigeons do everything except providing evidence and
+//   (re-)reporting deliveries;  silent  nobody sends anything
+func (c *chain) dutyTxs(mode ...string) [][]byte {
+	m := "duty"
+	if len(mode) > 0 && mode[0] != "" {
+		m = mode[0]
+	}
+	if m == "silent" || c.nv() < 4 {
+		return nil
+	}
 	names := duty(c.e.Height)
-	if c.quiet() {
+	if m == "noattest" {
+		names = append([]string{"sign", "estimate", "batchest", "confirm"}, names[8:]...)
+	} else if c.quiet() {
 		names = names[8:] // only what users send
 	}
 	return c.build(names)
+}
+
+// reported: ids of the turnstone messages that carry a delivery report (public access data or error data)
+func (c *chain) reported() map[string]bool {
+	out := map[string]bool{}
+	for _, ch := range chains {
+		for _, m := range c.queueMsgs(turnstoneQueue(ch)) {
+			if m.GetPublicAccessData() != nil || m.GetErrorData() != nil {
+				out[fmt.Sprintf("%s/%d", ch, m.GetId())] = true
+			}
+		}
+	}
+	return out
+}
+
+// validator census: bonded validators that are jailed / that are unjailed although their pigeon is not alive
+func (c *chain) census() (jailed, lapsed int) {
+	ctx := c.ctx()
+	vals, err := c.e.App.StakingKeeper.GetAllValidators(ctx)
+	if err != nil {
+		return -1, -1
+	}
+	for _, v := range vals {
+		va, err := sdk.ValAddressFromBech32(v.GetOperator())
+		if err != nil {
+			continue
+		}
+		if v.IsJailed() {
+			jailed++
+			continue
+		}
+		if alive, err := c.e.App.ValsetKeeper.IsValidatorAlive(ctx, va); err != nil || !alive {
+			lapsed++
+		}
+	}
+	return jailed, lapsed
 }
 
 func (c *chain) build(names []string) [][]byte {
@@ -141,6 +197,30 @@ func getWorld() *world {
 	return theWorld
 }
 
+// other kinds of world, built when a history asks for them; a preparation that aborted is remembered with its stack
+type worldOrAbort struct {
+	w     *world
+	stack string
+}
+
+var otherWorlds = map[string]*worldOrAbort{}
+
+func getWorldOf(kind string) (*world, string) {
+	if kind == "" || kind == "std" {
+		return getWorld(), ""
+	}
+	if x, ok := otherWorlds[kind]; ok {
+		return x.w, x.stack
+	}
+	k, ok := worldKinds[kind]
+	if !ok {
+		panic("unknown world " + kind)
+	}
+	w, stack := newWorldOf(k, envInt("VERIF_CH_BASE", worldBase))
+	otherWorlds[kind] = &worldOrAbort{w, stack}
+	return w, stack
+}
+
 func TestDriveNoAbort(t *testing.T) {
 	hs, err := drv.LoadHistories()
 	if err != nil {
@@ -171,6 +251,30 @@ func runNoAbort(t *testing.T, em *drv.Emitter, w *world, h drv.History, long boo
 	script, ok2 := stageScript[ia.Stage]
 	if !ok || !ok2 {
 		t.Fatalf("history %d: unknown stage / height class %v", h.H, ia)
+	}
+	if ia.World == "" {
+		ia.World = "std"
+	}
+	prepArgs := map[string]any{"stage": ia.Stage, "hclass": ia.HClass, "world": ia.World}
+	if ia.World != "std" {
+		ww, stack := getWorldOf(ia.World)
+		if ww == nil {
+			// the world itself could not be prepared: a block of its preparation aborted
+			em.Emit(map[string]any{"h": h.H, "i": 0, "act": "Prepare", "args": prepArgs, "res": "abort", "height": 0, "whash": "", "stack": shortStack(stack)})
+			for i, st := range h.Steps[1:] {
+				if st.Act != "Run" {
+					t.Fatalf("history %d: only Run may follow Prepare in world %s", h.H, ia.World)
+				}
+				var ra c09Args
+				if len(st.Args) > 0 {
+					must(json.Unmarshal(st.Args, &ra))
+				}
+				em.Emit(map[string]any{"h": h.H, "i": i + 1, "act": "Run", "args": map[string]any{"mode": ra.Mode, "span": ra.Span}, "res": "skipped", "blocks": 0, "stack": "", "log": "",
+					"long": long, "at": 0, "m10": false, "m50": false, "m300": false, "m303": false, "pruned": 0, "jailed": 0, "lapsed": 0})
+			}
+			return
+		}
+		w = ww
 	}
 	// the prepared stage at the block before the hostile one is built once per process and forked per history
 	key := ia.Stage + "|" + ia.HClass
@@ -214,7 +318,7 @@ func runNoAbort(t *testing.T, em *drv.Emitter, w *world, h drv.History, long boo
 		}
 		return codes, ""
 	}
-	em.Emit(map[string]any{"h": h.H, "i": 0, "act": "Prepare", "args": map[string]any{"stage": ia.Stage, "hclass": ia.HClass}, "res": initRes,
+	em.Emit(map[string]any{"h": h.H, "i": 0, "act": "Prepare", "args": prepArgs, "res": initRes,
 		"height": int(c.e.Height), "whash": w.hash, "stack": shortStack(initStack)})
 	hostileAt := int64(0)
 	gate, rejected := false, false
@@ -282,9 +386,24 @@ func runNoAbort(t *testing.T, em *drv.Emitter, w *world, h drv.History, long boo
 			hostileAt = c.e.Height + 1
 			ev["res"] = "armed"
 		case "Run":
-			ev["args"] = map[string]any{}
+			var ra c09Args
+			if len(st.Args) > 0 {
+				must(json.Unmarshal(st.Args, &ra))
+			}
+			if ra.Mode == "" {
+				ra.Mode = "duty"
+			}
+			if ra.Span == "" {
+				ra.Span = "next"
+			}
+			ev["args"] = map[string]any{"mode": ra.Mode, "span": ra.Span}
 			cov := map[string]bool{"m10": false, "m50": false, "m300": false, "m303": false}
 			ev["res"], ev["blocks"], ev["stack"], ev["log"], ev["long"] = "ok", 0, "", "", long
+			ev["pruned"], ev["jailed"], ev["lapsed"] = 0, 0, 0
+			var before map[string]bool
+			if !dead {
+				before = c.reported()
+			}
 			if dead {
 				ev["res"] = "skipped"
 			} else {
@@ -319,8 +438,16 @@ func runNoAbort(t *testing.T, em *drv.Emitter, w *world, h drv.History, long boo
 					done = func() bool { k++; return k > 2 }
 				}
 				n := 0
+				base := done
+				switch ra.Span {
+				case "prune":
+					// past the first pruning height (= 0 mod 50) at which what was queued before the run is older than 300 blocks
+					done = func() bool { return base() && c.e.Height >= 610 }
+				case "120":
+					done = func() bool { return base() && n >= 120 }
+				}
 				for !done() && n < 700 {
-					_, stack := deliver(c.dutyTxs())
+					_, stack := deliver(c.dutyTxs(ra.Mode))
 					n++
 					if stack != "" {
 						ev["res"], ev["stack"], ev["log"] = "abort", shortStack(stack), firstLines(stack, 6000)
@@ -329,6 +456,17 @@ func runNoAbort(t *testing.T, em *drv.Emitter, w *world, h drv.History, long boo
 					mark(c.e.Height)
 				}
 				ev["blocks"] = n
+				if !dead {
+					after := c.reported()
+					gone := 0
+					for id := range before {
+						if !after[id] {
+							gone++
+						}
+					}
+					ev["pruned"] = gone
+					ev["jailed"], ev["lapsed"] = c.census()
+				}
 			}
 			ev["at"] = int(c.e.Height)
 			for k, v := range cov {
